@@ -686,3 +686,332 @@ def C08(tier, seed):
     }
     return run_symx_check('C08', tier, seed, 'harness/h_rel.cpp', cases, 1200 if tier == 'quick' else 3400, tv, confirm, bounds,
                           replayer='replay/r_mcb.cpp', witness_pick=lambda cs: [c for c in cs if 'sym=all' in c and 'n=4' in c][:8], keep_every=7)
+
+
+# ----------------------------------------------------------------------------- C17
+def _gf2_concretise(script, model):
+    out = []
+    for cmd in script.split(';'):
+        toks = cmd.split()
+        if not toks:
+            continue
+        conc = [toks[0]]
+        for t in toks[1:]:
+            if t.startswith('=') or t.isdigit():
+                conc.append(t)
+            else:
+                conc.append(str(int(parse_q(model.get(t, '0')))))
+        out.append(' '.join(conc))
+    return ';'.join(out)
+
+
+def _gf2_dense(script):
+    """independent dense model in python: registers as sets; returns (regs, dots)"""
+    regs = [set(), set(), set()]
+    dots = []
+    for cmd in script.split(';'):
+        t = cmd.split()
+        if not t:
+            continue
+        op = t[0]
+        a = [int(x) for x in t[1:] if not x.startswith('=')]
+        if op == 'setc':
+            regs[a[0]] = set(a[1:])
+        elif op == 'unit':
+            regs[a[0]] = {a[1]}
+        elif op in ('copy', 'move', 'assign', 'massign'):
+            regs[a[0]] = set(regs[a[1]])
+        elif op == 'plus':
+            regs[a[0]] = regs[a[1]] ^ regs[a[2]]
+        elif op == 'pluseq':
+            regs[a[0]] = regs[a[0]] ^ regs[a[1]]
+        elif op == 'dot':
+            dots.append(len(regs[a[0]] & regs[a[1]]) % 2)
+        elif op == 'dotset':
+            dots.append(len(regs[a[0]] & set(a[1:])) % 2)
+        elif op == 'clear':
+            regs[a[0]] = set()
+        elif op == 'selfplus':
+            regs[a[0]] = set()
+    return [sorted(r) for r in regs], dots
+
+
+def C17(tier, seed):
+    if tier == 'quick':
+        cases = ['L=2 steps=1 R=2', 'L=1 steps=2 R=2', 'L=3 steps=1 R=2 op=4', 'L=3 steps=1 R=2 op=6']
+    else:
+        cases = ['L=3 steps=1 R=2 op=%d' % o for o in range(13)] + ['L=2 steps=2 R=2', 'L=1 steps=3 R=3', 'L=2 steps=1 R=3',
+                                                                   'L=4 steps=1 R=2 op=4', 'L=4 steps=1 R=2 op=6', 'L=4 steps=1 R=2 op=5']
+
+    def tv(leaves, rbin):
+        lines, meta = [], []
+        for rec in leaves:
+            lines.append(_gf2_concretise(rec['script'], rec['model']))
+            meta.append(rec)
+        n = 0
+        for rec, ln, o in zip(meta, lines, run_replayer_batch(rbin, lines)):
+            if o.get('crashed'):
+                return n, 'real SpVecGF2<size_t> crashed on ' + ln
+            R = int(rec['R'])
+            sym_final = [[int(parse_q(x)) for x in reg] for reg in rec['final']]
+            dense, dots = _gf2_dense(ln)
+            if o['regs'][:R] != sym_final or o['regs'][:R] != dense[:R] or o['dots'] != dots:
+                return n, 'SpVecGF2<size_t> disagrees: script %s real %s symbolic-final %s dense %s' % (ln, o, sym_final, dense)
+            n += 1
+        return n, None
+
+    def confirm(agg, rbin, out):
+        for idx, (rec, obl) in enumerate(agg.violated[:20]):
+            # the leaf record of a violated path carries the script only at leaf end; replay with the violating model
+            script = rec.get('script')
+            if not script:
+                out.fault = 'violated leaf without script'
+                return
+            ln = _gf2_concretise(script, obl.get('model') or rec['model'])
+            o = run_replayer(rbin, [ln])[0]
+            dense, dots = _gf2_dense(ln)
+            R = int(rec['R'])
+            if not o.get('crashed') and o['regs'][:R] == dense[:R] and o['dots'] == dots:
+                out.fault = 'C17 counterexample did not reproduce on SpVecGF2<size_t>: %s' % ln
+                return
+            rp = os.path.join(cex_dir(), 'C17-replay-%d.json' % idx)
+            json.dump({'property': 'C17', 'replayer': 'replay/r_gf2.cpp', 'line': ln, 'observed': o, 'dense': dense, 'dots': dots}, open(rp, 'w'), indent=1)
+            key = 'gf2/' + rec.get('history', '')
+            kf = finding_matches('C17', key)
+            if kf:
+                out.n_known += 1
+                out.known_lines.append('KNOWN-FINDING: property=C17 %s' % kf['text'])
+            else:
+                out.n_confirmed += 1
+                out.violation_lines.append('VIOLATION property=C17 replay=%s' % rp)
+        if agg.crashes and not agg.violated:
+            out.fault = 'crash in gf2 harness: %s' % json.dumps(agg.crashes[0])[:300]
+    bounds = {
+        'functions_encoded': ['parmcb::SpVecGF2<U> (all constructors, operator=, operator* (vector, set), operator+, operator+=, size, begin/end, clear)'],
+        'bounds': 'U = symx::Int (unbounded non-negative indices: every dimension); pre-state: registers built from symbolic index sets of '
+                  'symbolic size <= L; quick: L=2 one arbitrary operation, L=1 two operations, L=3 for + and *; thorough: L=3 every operation, '
+                  'L=4 for +, +=, *, histories of 2 (L=2) and 3 (L=1, three registers) operations',
+        'outside_bounds': 'vectors with more than L ones; histories longer than 3; SpVecGF2::add (never called in the repository); serialization',
+        'inductive_step': 'every canonical vector with <= L ones is reachable by the set constructor, so a one-operation step from that pre-state '
+                          'covers histories of any length over vectors of that size',
+    }
+    assume = ['engine A with symx::Int (z3 Int sort); indices are mathematical non-negative integers',
+              'trusted: z3 4.8.12 (linear integer arithmetic), the dense XOR-multiset model written in the harness, re-checked per run by an '
+              'independent python set model on the real SpVecGF2<size_t>']
+    return run_symx_check('C17', tier, seed, 'harness/h_gf2.cpp', cases, 600 if tier == 'quick' else 3000, tv, confirm, bounds,
+                          replayer='replay/r_gf2.cpp', witness_pick=lambda cs: ['L=2 steps=1 R=2 op=4'], assumptions=assume, keep_every=11)
+
+
+# ----------------------------------------------------------------------------- C18
+def _bvval(s, width):
+    s = str(s)
+    v = int(s[2:], 16) if s.startswith('#x') else (int(s[2:], 2) if s.startswith('#b') else int(s))
+    if v >= 1 << (width - 1):
+        v -= 1 << width
+    return v
+
+
+def _egcd_ok(a, b, g, x, y):
+    return g == math.gcd(a, b) and g > 0 and a * x + b * y == g
+
+
+def _is_prime(p):
+    return p >= 2 and all(p % k for k in range(2, int(p ** 0.5) + 1))
+
+
+def _fp_dense(script, p):
+    regs = [{}, {}]
+    res, dot = None, None
+    for cmd in script.split(';'):
+        t = cmd.split()
+        if not t:
+            continue
+        if t[0] == 'term':
+            r, idx, c = int(t[1]), int(t[2]), int(t[3])
+            regs[r][idx] = regs[r].get(idx, 0) + c
+        elif t[0] in ('plus', 'pluseq'):
+            res = dict(regs[0])
+            for k, v in regs[1].items():
+                res[k] = res.get(k, 0) + v
+        elif t[0] in ('scale', 'scaleeq'):
+            res = {k: v * int(t[1]) for k, v in regs[0].items()}
+        elif t[0] == 'dot':
+            dot = sum(v * regs[1].get(k, 0) for k, v in regs[0].items()) % p
+        elif t[0] == 'assign':
+            res = dict(regs[0])
+
+    def canon(d):
+        return [[k, str(v % p)] for k, v in sorted(d.items()) if v % p]
+    return canon(regs[0]), canon(regs[1]), (canon(res) if res is not None else None), dot
+
+
+def _fp_line(rec, model, typ):
+    W = int(rec['W'])
+    toks = []
+    for cmd in rec['script'].split(';'):
+        t = cmd.split()
+        if not t:
+            continue
+        toks.append('_'.join(x if (x.lstrip('-').isdigit() or x in ('term', 'plus', 'scale', 'dot', 'pluseq', 'scaleeq', 'assign'))
+                             else str(_bvval(model[x], W)) for x in t))
+    return 'what=fpvec type=%s p=%s script=%s' % (typ, rec['p'], ';'.join(toks))
+
+
+def _fp_bad(line, o):
+    c = parse_case(line)
+    p = int(c['p'])
+    a, b, res, dot = _fp_dense(c['script'].replace('_', ' '), p)
+    if o.get('crashed'):
+        return True
+    if o['a'] != a or o['b'] != b:
+        return True
+    if res is not None and o.get('res') != res:
+        return True
+    if dot is not None and (int(o['dot']) - dot) % p != 0:
+        return True
+    return False
+
+
+def _int_line_and_bad(rec, model, typ='int'):
+    """(replayer line, predicate(o) -> violated) for a C18 leaf/counterexample"""
+    W = int(rec['W'])
+    what = rec['what']
+    if what in ('gcd', 'gcdc'):
+        a = _bvval(model['a'], W)
+        b = int(rec['mod']) if what == 'gcdc' else _bvval(model['b'], W)
+        return ('what=gcd type=%s a=%d b=%d' % (typ, a, b),
+                lambda o: o.get('crashed') or not _egcd_ok(a, b, int(o['g']), int(o['x']), int(o['y'])))
+    if what == 'inv':
+        a = _bvval(model['a'], W)
+        p = _bvval(model['p'], W) if rec['mod'] == 'sym' else int(rec['mod'])
+
+        def bad(o):
+            if o.get('crashed'):
+                return True
+            cop = math.gcd(a, p) == 1
+            if o['threw']:
+                return cop
+            return (not cop) or (a * int(o['ret']) - 1) % p != 0
+        return 'what=inv type=%s a=%d p=%d' % (typ, a, p), bad
+    if what == 'prime':
+        p = _bvval(model['p'], W)
+        return 'what=prime type=%s p=%d' % (typ, p), lambda o: o.get('crashed') or o['result'] != _is_prime(p)
+    if what == 'spvecfp':
+        ln = _fp_line(rec, model, typ)
+        return ln, lambda o: _fp_bad(ln, o)
+    raise EngineFault('unknown C18 case ' + what)
+
+
+def C18(tier, seed):
+    moduli = [1, 2, 3, 5, 7, 11, 13, 17, 97, 257]
+    c8, c12, c16 = [], [], []
+    c8.append('what=gcd')
+    c8.append('what=inv mod=sym lim=60')
+    for m in [2, 3, 5, 7, 11, 13, 17, 97]:
+        c8.append('what=inv mod=%d' % m)
+    c16 += ['what=gcdc mod=%d lim=%d' % (m, 2000 if tier == 'quick' else 32767) for m in moduli + [65537 % 32768]]
+    c16 += ['what=inv mod=%d lim=%d' % (m, 2000 if tier == 'quick' else 32767) for m in [2, 3, 5, 7, 17, 97, 257, 8191]]
+    c16.append('what=prime lim=%d' % (4095 if tier == 'quick' else 32767))
+    c12.append('what=prime')
+    # SpVecFP: every operation; monitored (no signed overflow allowed) runs use p with (p-1)^2 representable and any scalar
+    for p in ([2, 3] if tier == 'quick' else [2, 3, 5]):
+        for op in range(6):
+            c8.append('what=spvecfp p=%d L=1 op=%d monitor=1' % (p, op))
+    c8.append('what=spvecfp p=5 L=1 op=1 monitor=1')
+    c8.append('what=spvecfp p=7 L=1 op=1 monitor=1')
+    c8.append('what=spvecfp p=11 L=1 op=4 monitor=1')
+    if tier == 'thorough':
+        c8 += ['what=spvecfp p=3 L=2 op=%d slim=40' % op for op in range(6)]
+        c8 += ['what=spvecfp p=2 L=2 op=%d monitor=1' % op for op in range(6)]
+        c8 += ['what=spvecfp p=7 L=1 op=%d monitor=1' % op for op in range(6)]
+        c12 += ['what=gcd lim=300']
+    t0 = time.time()
+    bins = build_many([('harness/h_int.cpp', 'symx', 'h_int8', ('-DBVW=8',)), ('harness/h_int.cpp', 'symx', 'h_int12', ('-DBVW=12',)),
+                       ('harness/h_int.cpp', 'symx', 'h_int16', ('-DBVW=16',)), ('replay/r_int.cpp', 'real_nolib')])
+    h8, h12, h16, rbin = bins
+    agg = Agg(['C18:'])
+    out = Outcome('C18')
+    leaves = []
+
+    def keep(rec):
+        if len(leaves) < 20000:
+            leaves.append(rec)
+    budget = 900 if tier == 'quick' else 3300
+    ws, _ = run_harness(h8, ['what=inv mod=7', 'what=spvecfp p=3 L=1 op=0'], 'C18-witness', timeout=300, witness=True)
+    if ws.get('witness_hits', 0) <= 0:
+        out.fault = 'witness twin was not violated'
+    agg.witness_hits = ws.get('witness_hits', 0)
+    import concurrent.futures
+    with concurrent.futures.ThreadPoolExecutor(max_workers=3) as ex:
+        futs = [ex.submit(run_harness, h, cs, 'C18-%s-w%d' % (tier, w), budget, 6 if w != 8 else 8)
+                for h, cs, w in ((h8, c8, 8), (h12, c12, 12), (h16, c16, 16)) if cs]
+        for f in futs:
+            s, log = f.result()
+            agg.add_summary(s)
+            agg.add_log(log, keep)
+    if agg.leaves == 0 or not agg.obl:
+        out.fault = 'no leaf reached an obligation of C18'
+    nvalid = 0
+    if not out.fault:
+        r = rng(seed)
+        r.shuffle(leaves)
+        sample = leaves[:(120 if tier == 'quick' else 3000)]
+        lines, preds = [], []
+        for rec in sample:
+            for typ in ('int', 'cpp_int'):
+                ln, bad = _int_line_and_bad(rec, rec['model'], typ)
+                lines.append(ln)
+                preds.append(bad)
+        for ln, bad, o in zip(lines, preds, run_replayer_batch(rbin, lines)):
+            if bad(o):
+                out.fault = 'translation validation: real integer build violates the property where the symbolic leaf did not: %s -> %s' % (ln, json.dumps(o)[:300])
+                break
+            nvalid += 1
+    if not out.fault:
+        items = [(rec, obl) for rec, obl in agg.violated[:40]]
+        for rec in agg.crashes[:10]:
+            if rec.get('model') and rec.get('what'):
+                items.append((rec, {'name': 'C18:crash(signal %s)' % rec.get('signal')}))
+            else:
+                out.fault = 'crash without model: %s' % json.dumps(rec)[:300]
+        for idx, (rec, obl) in enumerate(items):
+            if out.fault:
+                break
+            confirmed = None
+            for typ in ('int', 'long', 'cpp_int'):
+                ln, bad = _int_line_and_bad(rec, obl.get('model') or rec['model'], typ)
+                o = run_replayer(rbin, [ln])[0]
+                if bad(o):
+                    confirmed = (ln, o)
+                    break
+            if 'no-signed-overflow' in obl['name'] and confirmed is None:
+                # overflow at width W need not occur at 32/64 bits with the same values: scale is reported, not replayable
+                out.fault = 'signed-overflow event at BV width %s not reproduced on built-in types: %s' % (rec['W'], rec['case'])
+                break
+            if confirmed is None:
+                out.fault = 'C18 counterexample did not reproduce on real integer types: %s %s' % (rec['case'], obl['name'])
+                break
+            rp = os.path.join(cex_dir(), 'C18-replay-%d.json' % idx)
+            json.dump({'property': 'C18', 'replayer': 'replay/r_int.cpp', 'line': confirmed[0], 'observed': confirmed[1], 'obligation': obl['name']},
+                      open(rp, 'w'), indent=1)
+            key = '%s/%s' % (rec['what'], obl['name'])
+            kf = finding_matches('C18', key)
+            if kf:
+                out.n_known += 1
+                out.known_lines.append('KNOWN-FINDING: property=C18 %s' % kf['text'])
+            else:
+                out.n_confirmed += 1
+                out.violation_lines.append('VIOLATION property=C18 replay=%s' % rp)
+    bounds = {
+        'functions_encoded': ['parmcb::fp<T>::ext_gcd', 'fp<T>::get_mult_inverse', 'parmcb::primes<T>::is_prime', 'parmcb::SpVecFP<P> (+, +=, * scalar, *=, dot, assignments, clear)'],
+        'bounds': 'T = symx::BV<W>: ext_gcd both operands symbolic at W=8 (|a|,|b|<=127) (thorough also W=12, |.|<=300); a symbolic at W=16 against '
+                  'moduli {1,2,3,5,7,11,13,17,97,257,...}; get_mult_inverse: symbolic p<=60 at W=8, fixed moduli at W=8/16; is_prime: every p in '
+                  '[2,2047] at W=12 and [2,4095] (thorough 32767) at W=16; SpVecFP<BV<8>>: p in {2,3,(5,7,11)}, vectors of <=1 (thorough 2) '
+                  'symbolic terms over indices 0..L, scalars of any sign over the whole 8-bit range with signed-overflow monitoring',
+        'outside_bounds': 'operands beyond the widths above (stand-in for built-in 32/64-bit and multiprecision types, which the replays exercise on '
+                          'sampled values only); p with (p-1)^2 not representable in P (overflow inherent to built-in P)',
+        'sqrt_stub': 'sqrt(p) is stubbed by its documented result floor(sqrt(p)) (assumed, part of the claim)',
+    }
+    assume = ['engine A with symx::BV<W> (two\'s complement, truncating / and %, signed comparisons); per-query bit-blasting solver',
+              'trusted: z3 4.8.12 (QF_BV), the sqrt stub, the dense model mod p in 4W-bit arithmetic']
+    return finish('C18', tier, seed, 'model_checking', agg, out, bounds, assume, t0, nvalid)
